@@ -9,7 +9,7 @@ import vf
 GEN = [("Gen_ClientMux_happy.cfg", 0.35), ("Gen_ClientMux_mild.cfg", 0.25), ("Gen_ClientMux_sim.cfg", 0.40)]
 
 
-def validate(ctx, traces, tag):
+def validate(ctx, traces, tag, module="Trace_ClientMux"):
     """returns (accepted_idx_set, still_running_idx_set); traces: list of dict(events=[...])"""
     shards = max(1, min(12, len(traces) // 150))
     acc, still = set(), set()
@@ -20,7 +20,7 @@ def validate(ctx, traces, tag):
             return [], []
         p = os.path.join(ctx.build, "%s.shard%d.ndjson" % (tag, k))
         vf.write_ndjson(p, [dict(events=traces[i]["events"]) for i in idx])
-        r = ctx.tlc("Trace_ClientMux", "Trace_ClientMux.cfg", workers=2, env=dict(VERIF_TRACE=p), timeout=2400, heap="4g")
+        r = ctx.tlc(module, module + ".cfg", workers=2, env=dict(VERIF_TRACE=p), timeout=2400, heap="4g")
         a = {idx[int(x) - 1] for x in r.lines("ACCEPT ")}
         s = {idx[int(x) - 1] for x in r.lines("STILL-RUNNING ")}
         return a, s
@@ -29,6 +29,63 @@ def validate(ctx, traces, tag):
             acc |= set(a)
             still |= set(s)
     return acc, still
+
+
+def execute(ctx, binp, scns, test, module, kind):
+    """run the schedules on the real multiplexer (in-process or OS-process client) and validate the event logs"""
+    scnp = os.path.join(ctx.build, "c10.%s.scn" % kind)
+    vf.write_ndjson(scnp, scns)
+    outp = os.path.join(ctx.build, "c10.%s.trace" % kind)
+    d = os.path.join(ctx.build, "c10.%s.d" % kind)
+    os.makedirs(d, exist_ok=True)
+    env = dict(VERIF_SCN=scnp, VERIF_OUT=outp, VERIF_SCRIPT="B", VERIF_DIR=d)
+    p = ctx.run_harness(binp, test, env=env, timeout=3000, check=False)
+    if "WARNING: DATA RACE" in p.stdout:
+        i = p.stdout.index("WARNING: DATA RACE")
+        ctx.candidate(dict(kind="race", client=kind), "data race reported by the Go race detector:\n" + p.stdout[i:i + 3000], dict(kind="race", report=p.stdout[i:i + 3000]))
+    elif p.returncode != 0:
+        raise vf.Machinery("harness failed rc=%d\n%s" % (p.returncode, p.stdout[-3000:]))
+    traces = vf.read_ndjson(outp)
+    if len(traces) != len(scns):
+        raise vf.Machinery("harness produced %d traces for %d schedules" % (len(traces), len(scns)))
+    hangs = [t for t in traces if t.get("hang")]
+    for t in hangs:
+        if t["hang"].startswith("harness"):
+            raise vf.Machinery("harness problem: %s schedule=%s" % (t["hang"], json.dumps(t["schedule"])))
+        if t["hang"].startswith("UNREPRODUCED"):
+            # schedule-dependent: counted, and turned into exit 2 at the end unless a reproduced violation explains it
+            ctx.notes.setdefault("unreproduced_hangs", []).append(dict(client=kind, hang=t["hang"], schedule=t["schedule"]))
+            continue
+        ctx.candidate(dict(kind="hang", client=kind, what=t["hang"]), "execution hangs (%s, %s client); schedule=%s; events so far=%s" % (
+            t["hang"], kind, json.dumps(t["schedule"]), json.dumps(t["events"])[:600]), t)
+    ok = [t for t in traces if not t.get("hang")]
+    acc, still = validate(ctx, ok, "v" + kind, module)
+    rejected = [i for i in range(len(ok)) if i not in acc]
+    for i in sorted(still)[:2000]:
+        t = ok[i]
+        ctx.candidate(dict(kind="isRunning-true-after-exit", client=kind),
+                      "isRunning() still true 2 s after waitForResponses returned (client process has ended); schedule=%s" % json.dumps(t["schedule"]), t)
+    if rejected:
+        ctx.log("%d rejected traces (%s client); re-executing" % (len(rejected), kind))
+        rej_scn = [dict(hist=ok[i]["schedule"]) for i in rejected[:200]]
+        counts = [1] * len(rej_scn)
+        for rnd in range(2):
+            vf.write_ndjson(scnp, rej_scn)
+            ctx.run_harness(binp, test, env=env, timeout=3000, check=False)
+            again = vf.read_ndjson(outp)
+            a2, _ = validate(ctx, again, "r%s%d" % (kind, rnd), module)
+            for j in range(len(again)):
+                if j not in a2:
+                    counts[j] += 1
+        for j, i in enumerate(rejected[:200]):
+            if counts[j] >= 2:
+                t = ok[i]
+                ctx.candidate(dict(kind="trace-rejected", client=kind, last=[e["e"] for e in t["events"]][-3:]),
+                              "recorded execution (%s client) is not a behaviour of %s (rejected %d/3 times); schedule=%s events=%s" % (
+                                  kind, module.replace("Trace_", ""), counts[j], json.dumps(t["schedule"]), json.dumps(t["events"])[:900]), t)
+            else:
+                ctx.notes["unreproduced_rejections"] = ctx.notes.get("unreproduced_rejections", 0) + 1
+    return traces, ok, acc
 
 
 def run(ctx):
@@ -51,53 +108,22 @@ def run(ctx):
                     seen.add(k)
                     scns.append(s)
     ctx.log("%d distinct controller schedules" % len(scns))
-    scnp = os.path.join(ctx.build, "c10.scn")
-    vf.write_ndjson(scnp, scns)
-    binp = ctx.go_test_bin("internal/app/connectconformance", ["c10"], race=True)
-    outp = os.path.join(ctx.build, "c10.trace")
-    p = ctx.run_harness(binp, "TestVerifC10Run", env=dict(VERIF_SCN=scnp, VERIF_OUT=outp, VERIF_SCRIPT="B"), timeout=3000, check=False)
-    if "WARNING: DATA RACE" in p.stdout:
-        i = p.stdout.index("WARNING: DATA RACE")
-        ctx.candidate(dict(kind="race"), "data race reported by the Go race detector:\n" + p.stdout[i:i + 3000], dict(kind="race", report=p.stdout[i:i + 3000]))
-    elif p.returncode != 0:
-        raise vf.Machinery("harness failed rc=%d\n%s" % (p.returncode, p.stdout[-3000:]))
-    traces = vf.read_ndjson(outp)
-    if len(traces) != len(scns):
-        raise vf.Machinery("harness produced %d traces for %d schedules" % (len(traces), len(scns)))
-    hangs = [t for t in traces if t.get("hang")]
-    for t in hangs:
-        if t["hang"].startswith("UNREPRODUCED") or t["hang"].startswith("harness"):
-            raise vf.Machinery("unreproduced hang / harness problem: %s schedule=%s" % (t["hang"], json.dumps(t["schedule"])))
-        ctx.candidate(dict(kind="hang", what=t["hang"]), "execution hangs (%s); schedule=%s; events so far=%s" % (
-            t["hang"], json.dumps(t["schedule"]), json.dumps(t["events"])[:600]), t)
-    ok = [t for t in traces if not t.get("hang")]
-    acc, still = validate(ctx, ok, "v")
-    rejected = [i for i in range(len(ok)) if i not in acc]
-    for i in sorted(still)[:2000]:
-        t = ok[i]
-        ctx.candidate(dict(kind="isRunning-true-after-exit"),
-                      "isRunning() still true 2 s after waitForResponses returned (client process has ended); schedule=%s" % json.dumps(t["schedule"]), t)
-    if rejected:
-        # re-execute rejected schedules: a rejection must reproduce (>= 2 of 3) to count
-        ctx.log("%d rejected traces; re-executing" % len(rejected))
-        rej_scn = [dict(hist=ok[i]["schedule"]) for i in rejected[:200]]
-        counts = [1] * len(rej_scn)
-        for rnd in range(2):
-            vf.write_ndjson(scnp, rej_scn)
-            ctx.run_harness(binp, "TestVerifC10Run", env=dict(VERIF_SCN=scnp, VERIF_OUT=outp, VERIF_SCRIPT="B"), timeout=3000, check=False)
-            again = vf.read_ndjson(outp)
-            a2, _ = validate(ctx, again, "r%d" % rnd)
-            for j in range(len(again)):
-                if j not in a2:
-                    counts[j] += 1
-        for j, i in enumerate(rejected[:200]):
-            if counts[j] >= 2:
-                t = ok[i]
-                ctx.candidate(dict(kind="trace-rejected", last=[e["e"] for e in t["events"]][-3:]),
-                              "recorded execution is not a behaviour of ClientMux (rejected %d/3 times); schedule=%s events=%s" % (
-                                  counts[j], json.dumps(t["schedule"]), json.dumps(t["events"])[:900]), t)
-            else:
-                ctx.notes["unreproduced_rejections"] = ctx.notes.get("unreproduced_rejections", 0) + 1
+    binp = ctx.go_test_bin("internal/app/connectconformance", ["c10", "peers"], race=True)
+    traces, ok, acc = execute(ctx, binp, scns, "TestVerifC10Run", "Trace_ClientMux", "inproc")
+    # the same schedules against a client that is an OS process (how a client under test is run)
+    mco = ctx.tlc("MC_ClientMuxOS", "MC_ClientMuxOS_live.cfg" if q else "MC_ClientMuxOS_q.cfg", deadlock=True, timeout=3000)
+    ctx.notes["mc_design_os"] = dict(distinct=mco.distinct, generated=mco.generated)
+    if not q:
+        ctx.tlc("MC_ClientMuxOS", "MC_ClientMuxOS_live.cfg", deadlock=True, timeout=3000)
+    os_scns = scns if not ctx.replay else scns
+    if q:
+        os_scns = scns[::2]
+    traces2, ok2, acc2 = execute(ctx, binp, os_scns, "TestVerifC10RunOS", "Trace_ClientMuxOS", "os")
+    ctx.notes["os_client"] = dict(schedules=len(os_scns), accepted=len(acc2))
+    traces, ok = traces + traces2, ok + ok2
+    if ctx.notes.get("unreproduced_hangs") and not ctx.violations and not ctx.known_hits:
+        h = ctx.notes["unreproduced_hangs"][0]
+        raise vf.Machinery("unreproduced hang (%d in total): %s schedule=%s" % (len(ctx.notes["unreproduced_hangs"]), h["hang"], json.dumps(h["schedule"])))
     ctx.cov["traces_validated_against_impl"] += len(ok)
     ctx.cov["evaluations"] += len(traces)
     def nontrivial(t):
